@@ -5,6 +5,7 @@ import (
 	"go/ast"
 	"go/token"
 	"go/types"
+	"os"
 	"strings"
 
 	"verifcheck/core"
@@ -220,9 +221,19 @@ func runC04(c *core.Ctx) {
 			case core.OutcomeFailed(st, um):
 				return // undecodable block is skipped
 			case core.OutcomeFailed(st, cur) && eofEstablished(st) == 1:
-				return // the error is io.EOF: end of the head segment
+				// Current and Advance are two critical sections: a block appended after Current saw the end of the queue
+				// would be skipped (and the head moved into its middle). At the end only an exhausted head segment
+				// may be trimmed (queue.TrimExhaustedHead).
+				bad[e] = "queue.Advance is called on the path where Current reported io.EOF: a block appended between the two calls is skipped and the head position lands inside it"
+				return
 			case defined(st, ws) && core.CondOutcome(st, isRetry) == 2:
-				return // target answered: success or permanent rejection
+				// target answered: success or permanent rejection - of the block that is the current one: the block
+				// sent must have been read by queue.Current in this very call (a block kept from an earlier call may
+				// no longer be the head after a purge or a truncation, and Advance would then skip an unsent block)
+				if !core.OutcomeOK(st, cur) {
+					bad[e] = "queue.Advance follows an answer for a block that was not read by queue.Current in this call: the head may have moved since (age purge, truncation), and the block that is skipped was never sent"
+				}
+				return
 			}
 			bad[e] = "queue.Advance is reachable on a path where the target has not answered (success or non-retryable error), the head is not at EOF and the block decoded fine"
 		})
@@ -235,12 +246,78 @@ func runC04(c *core.Ctx) {
 			i++
 			c.Check("advance-only-after-answer", fmt.Sprintf("%s/Advance#%d", f.Name, i), c.P.Pos(e.Pos()), bad[e] == "", bad[e])
 		}
-		c.Floor("Advance sites", i, 3)
+		c.Floor("Advance sites", i, 2)
 		// the retryable-error edge leaves without advancing: covered above (an Advance on that path would be flagged);
 		// additionally the error must be returned so the run loop backs off
 		errPropagated(c, f, "error-surfaces", "WriteShardBinary", ws)
 		// IsRetryable is the classifier
 		findOrAbort(c, f, "IsRetryable", evCall(calleeIn(f, hhp+".IsRetryable")), 1)
+		// the purger removes an empty processor only through CloseIfEmpty, which decides with writers excluded
+		// (WriteShard appends without the service lock): Close+Purge after a look at Empty deletes a write accepted in
+		// between
+		pf := c.Fn(hhp + ".(*Service).purgeInactiveProcessors")
+		var lit *core.FuncInfo
+		for _, l := range pf.Lits {
+			if len(l.Graph().Find(evCall(calleeIn(l, hhp+".(*NodeProcessor).Purge")))) > 0 {
+				lit = l
+			}
+		}
+		if lit == nil {
+			lit = pf
+		}
+		purge := calleeIn(lit, hhp+".(*NodeProcessor).Purge")
+		cie := calleeIn(lit, hhp+".(*NodeProcessor).CloseIfEmpty")
+		isEmptyCond := func(x ast.Expr) bool {
+			x = derefLocal(lit, ast.Unparen(x))
+			if u, ok := x.(*ast.UnaryExpr); ok && u.Op == token.NOT {
+				x = ast.Unparen(derefLocal(lit, u.X))
+			}
+			ce, ok := x.(*ast.CallExpr)
+			return ok && calleeIn(lit, hhp+".(*NodeProcessor).Empty")(ce)
+		}
+		badP := ""
+		nP := 0
+		completeP := lit.Flow().ExplorePaths(func(k core.VarKey, fct core.Fact) bool {
+			if ce, ok := fct.Def.(*ast.CallExpr); ok && cie(ce) {
+				return true
+			}
+			if k.Root != nil && k.Path == "" {
+				if b, ok := k.Root.Type().Underlying().(*types.Basic); ok && b.Kind() == types.Bool {
+					return true // boolean locals (the answer of Empty kept in a variable): ties its tests together
+				}
+			}
+			return k.Root == nil && strings.HasPrefix(k.Path, "cond:") && fct.Def != nil && (isEmptyCond(fct.Def) || strings.Contains(core.ExprStr(fct.Def), "closed"))
+		}, func(e *core.Event, st core.State) {
+			if e.Kind != core.EvCall || !purge(e.Call) {
+				return
+			}
+			nP++
+			// was the processor found empty on this path? (cond `empty` true / `!p.Empty()` false)
+			foundEmpty := false
+			for k, fct := range st {
+				if k.Root != nil || !strings.HasPrefix(k.Path, "cond:") || fct.Def == nil || !isEmptyCond(fct.Def) {
+					continue
+				}
+				neg := false
+				if u, ok := ast.Unparen(derefLocal(lit, ast.Unparen(fct.Def))).(*ast.UnaryExpr); ok && u.Op == token.NOT {
+					neg = true
+				}
+				if (fct.Bool == 1 && !neg) || (fct.Bool == 2 && neg) {
+					foundEmpty = true
+				}
+			}
+			if os.Getenv("VERIFCHECK_DEBUG") != "" {
+				for k, fct := range st {
+					fmt.Printf("DBG purge@%s key=%s bool=%d def=%s\n", c.P.Pos(e.Pos()), k.Path, fct.Bool, core.ExprStr(fct.Def))
+				}
+				fmt.Println("DBG ---", foundEmpty, core.OutcomeOK(st, cie))
+			}
+			if foundEmpty && !core.OutcomeOK(st, cie) {
+				badP = "a processor found empty is purged @" + c.P.Pos(e.Pos()) + " on a path where CloseIfEmpty has not closed it: a write accepted since the look at Empty is deleted with the queue directory"
+			}
+		})
+		c.Need(completeP, "exploration bound purgeInactiveProcessors")
+		c.Check("empty-purge-decided-with-writers-excluded", pf.Name+"/Purge", pf.PosStr(), badP == "" && nP >= 1, badP)
 	})
 
 	c.Clause("D5", func() {
@@ -313,6 +390,7 @@ func runC04(c *core.Ctx) {
 			{q("Advance"), seg("advance"), 1, "the advance itself"},
 			{q("Open"), q("trimHead"), 1, "head already exhausted at open"},
 			{q("PurgeOlderThan"), q("trimHead"), 1, "age limit"},
+			{q("TrimExhaustedHead"), q("trimHead"), 1, "exhausted head segment, decided under the queue lock (the end-of-queue step of SendWrite)"},
 			{q("Remove"), "os.RemoveAll", 1, "closed queue removal"},
 			{q("Truncate"), seg("truncate"), 1, "corrupt block"},
 			{q("trimHead"), "os.Remove", 1, "exhausted head segment file"},
@@ -334,18 +412,44 @@ func runC04(c *core.Ctx) {
 		walk(f)
 		c.Need(inner != nil, "closure calling NodeProcessor.Purge")
 		purge := calleeIn(inner, hhp+".(*NodeProcessor).Purge")
-		isEmpty := func(x ast.Expr) bool { return strings.Contains(core.ExprStr(x), ".Empty()") }
+		// the answer of p.Empty(), tested directly (`!p.Empty()`) or through a boolean local (`empty := p.Empty()`)
+		emptyAtom := func(x ast.Expr) (neg, ok bool) {
+			x = ast.Unparen(derefLocal(inner, ast.Unparen(x)))
+			if u, isU := x.(*ast.UnaryExpr); isU && u.Op == token.NOT {
+				neg = true
+				x = ast.Unparen(derefLocal(inner, ast.Unparen(u.X)))
+			}
+			ce, isC := x.(*ast.CallExpr)
+			return neg, isC && calleeIn(inner, hhp+".(*NodeProcessor).Empty")(ce)
+		}
+		isEmpty := func(x ast.Expr) bool { _, ok := emptyAtom(x); return ok }
+		foundEmpty := func(st core.State) bool {
+			for k, fct := range st {
+				if k.Root != nil || !strings.HasPrefix(k.Path, "cond:") || fct.Def == nil || fct.Bool == 0 {
+					continue
+				}
+				if neg, ok := emptyAtom(fct.Def); ok && ((fct.Bool == 1 && !neg) || (fct.Bool == 2 && neg)) {
+					return true
+				}
+			}
+			return false
+		}
 		isActive := func(x ast.Expr) bool { id, ok := ast.Unparen(x).(*ast.Ident); return ok && id.Name == "active" }
 		isYoung := func(x ast.Expr) bool { return strings.Contains(core.ExprStr(x), ".Before(") }
 		bad := ""
 		complete := inner.Flow().ExplorePaths(func(k core.VarKey, fct core.Fact) bool {
+			if k.Root != nil && k.Path == "" {
+				if b, ok := k.Root.Type().Underlying().(*types.Basic); ok && b.Kind() == types.Bool {
+					return true // boolean locals tie the tests of one answer together
+				}
+			}
 			return k.Root == nil && strings.HasPrefix(k.Path, "cond:") && fct.Def != nil && (isEmpty(fct.Def) || isActive(fct.Def) || isYoung(fct.Def))
 		}, func(e *core.Event, st core.State) {
 			if e.Kind != core.EvCall || !purge(e.Call) {
 				return
 			}
-			// cond `!p.Empty()` false  => empty
-			if core.CondOutcome(st, isEmpty) == 2 {
+			// the queue was found empty on this path
+			if foundEmpty(st) {
 				return
 			}
 			if core.CondOutcome(st, isActive) == 2 && core.CondOutcome(st, isYoung) == 2 {
